@@ -243,10 +243,12 @@ type astate struct {
 	inRt  *asmRoutine
 	nload int
 	head  map[string]*Term // integer registers as they were at the last loop head (names R_0 in specs)
+	headPC   int           // length of the path condition right after the last loop head
+	cutFacts []*Term       // facts established by hints since the last loop head
 }
 
 func (a *astate) clone() *astate {
-	n := &astate{regs: map[string]aval{}, cf: a.cf, zf: a.zf, lt: a.lt, s: a.s.clone(), res: map[string]*Term{}, pc: a.pc, seen: map[string]int{}, inRt: a.inRt, nload: a.nload, head: a.head}
+	n := &astate{regs: map[string]aval{}, cf: a.cf, zf: a.zf, lt: a.lt, s: a.s.clone(), res: map[string]*Term{}, pc: a.pc, seen: map[string]int{}, inRt: a.inRt, nload: a.nload, head: a.head, headPC: a.headPC, cutFacts: append([]*Term(nil), a.cutFacts...)}
 	for k, v := range a.regs {
 		n.regs[k] = v
 	}
@@ -276,6 +278,7 @@ type asmCtx struct {
 	nstore int
 	fname  string
 	resAlias map[string]string // result name in the Go declaration -> name used in the contract header
+	entryPC  int               // length of the path condition after the preconditions and entry hints
 }
 
 func (ac *asmCtx) unsupported(in asmInstr, why string) {
@@ -663,6 +666,65 @@ func (ac *asmCtx) step(a *astate) []*astate {
 	return nil
 }
 
+// asmHint applies one hint at an assembly program point.  `forget(R1, R2, ...)` is a
+// summarising cut: the listed registers get fresh values and the path condition is reduced
+// to what held at the last loop head plus the facts established by hints since then (sound:
+// only hypotheses are dropped).  It keeps the instruction-level detail of a long
+// straight-line block out of the queries that follow it.
+func (ac *asmCtx) asmHint(a *astate, h *Hint, where string) {
+	if h.E != nil && h.E.Kind == "call" && (h.E.Name == "forget" || h.E.Name == "forget0") {
+		// forget(R1, ..., Rk, fact): prove fact, give R1..Rk fresh values, keep only the
+		// hypotheses of the loop head, the hint facts since then, and fact over the new values
+		n := len(h.E.Args)
+		if n < 2 {
+			panic(unsupported("forget(R1, ..., fact): " + h.Text))
+		}
+		factE := h.E.Args[n-1]
+		g := ac.fc.evalSpecBool(ac.regEnv(a), factE)
+		ac.fc.oblige(a.s, fmt.Sprintf("%s.cut@%s", ac.fc.key, strings.ReplaceAll(where, " ", "")), "assert", h.Props, h.Text, g, where)
+		for _, arg := range h.E.Args[:n-1] {
+			if arg.Kind != "ident" || !asmRegs[arg.Name] {
+				panic(unsupported("forget(...) takes register names: " + h.Text))
+			}
+			nv := ac.fc.fresh("asm_"+arg.Name+"_cut", SInt)
+			a.regs[arg.Name] = aval{t: nv}
+		}
+		a.cf, a.zf, a.lt = nil, nil, nil
+		keep := a.headPC
+		if h.E.Name == "forget0" {
+			keep = ac.entryPC // after a loop: back to the hypotheses of the function entry
+		}
+		if keep > 0 && keep <= len(a.s.pc) {
+			// keep the loop-head hypotheses (head hints included: headPC is taken after them)
+			a.s.pc = append([]*Term(nil), a.s.pc[:keep]...)
+			a.cutFacts = nil
+		}
+		if h.E.Name == "forget0" && len(a.s.frames) > 0 {
+			// memory as at entry except for the function's own frame, which gets fresh
+			// contents (the fact re-assumed below says what is known about them); loop
+			// frames are left behind
+			a.s.frames = a.s.frames[:1]
+			for k, v := range ac.fc.oldHeap {
+				a.s.heap[k] = v
+			}
+			ac.fc.havocFrame(a.s, a.s.frames[0], ac.fc.oldHeap)
+		}
+		for _, arg := range h.E.Args[:n-1] {
+			v := a.regs[arg.Name].t
+			a.s.assume(mkAnd(mkLe(mkI(0), v), mkLt(v, mkInt(two64))))
+		}
+		f2 := ac.fc.evalSpecBool(ac.regEnv(a), factE)
+		a.s.assume(f2)
+		a.cutFacts = append(a.cutFacts, f2)
+		return
+	}
+	n0 := len(a.s.pc)
+	ac.fc.applyHint(a.s, ac.regEnv(a), h, where)
+	if len(a.s.pc) > n0 {
+		a.cutFacts = append(a.cutFacts, a.s.pc[n0:]...)
+	}
+}
+
 // regEnv builds the spec environment at an assembly program point: parameters by name,
 // integer registers by name, results written so far.
 func (ac *asmCtx) regEnv(a *astate) *Env {
@@ -845,6 +907,7 @@ func (fc *FnCtx) runAsm(repo string) (err error) {
 			fc.applyHint(start.s, ac.regEnv(start), h, "entry")
 		}
 	}
+	ac.entryPC = len(start.s.pc)
 	work := []*astate{start}
 	steps := 0
 	for len(work) > 0 {
@@ -921,9 +984,11 @@ func (fc *FnCtx) runAsm(repo string) (err error) {
 					}
 					for _, h := range ls.Hints {
 						if h.Where == "head" {
-							fc.applyHint(a.s, env2, h, "label "+key+" head")
+							ac.asmHint(a, h, "label "+key+" head")
 						}
 					}
+					a.headPC = len(a.s.pc)
+					a.cutFacts = nil
 					a.s.trace = append(a.s.trace, "label "+key)
 				} else if a.seen["plain:"+in.label] > 3 {
 					return fmt.Errorf("%s: label %s is reached repeatedly and has no invariant", fc.key, in.label)
@@ -943,9 +1008,8 @@ func (fc *FnCtx) runAsm(repo string) (err error) {
 					if !ok || err != nil || base+off != a.pc {
 						continue
 					}
-					env := ac.regEnv(a)
 					for _, h := range ls.Hints {
-						fc.applyHint(a.s, env, h, "at "+lk)
+						ac.asmHint(a, h, "at "+lk)
 					}
 				}
 			}
